@@ -24,6 +24,8 @@ func main() {
 		runScript()
 	case "filelog":
 		runFileLog()
+	case "fieldlist":
+		runFieldList()
 	default:
 		fmt.Fprintf(os.Stderr, "unknown subcommand %q\n", os.Args[1])
 		os.Exit(2)
